@@ -777,6 +777,9 @@ static void op_dir(sqfs_dir_reader_t *d, int argc, char **argv)
 static void op_data(sqfs_data_reader_t *d, int argc, char **argv)
 {
 	sqfs_inode_generic_t *ino = NULL; char hb[128]; int r;
+	if (argc >= 1 && !strcmp(argv[0], "reload")) {	/* sqfs_data_reader_load_fragment_table again: drops the cached fragment block */
+		out("reload %d", sqfs_data_reader_load_fragment_table(d, &E.super)); return;
+	}
 	if (argc < 2 || (r = inode_of(argv[1], &ino)) != 0) { out("bad-op"); return; }
 	if (ino->base.type != SQFS_INODE_FILE && ino->base.type != SQFS_INODE_EXT_FILE) { out("not-a-file"); sqfs_free(ino); return; }
 	if (argc >= 4 && !strcmp(argv[0], "read")) {
@@ -786,6 +789,23 @@ static void op_data(sqfs_data_reader_t *d, int argc, char **argv)
 	} else if (argc >= 3 && !strcmp(argv[0], "block")) {
 		size_t sz = 0; sqfs_u8 *b = NULL; r = sqfs_data_reader_get_block(d, ino, strtoul(argv[2], 0, 0), &sz, &b);
 		put_bytes(hb, sizeof(hb), b, r ? 0 : sz); out("block %d %s", r, hb); sqfs_free(b);
+	} else if (argc >= 3 && !strcmp(argv[0], "stream")) {
+		/* a stream over the reader (sqfs_data_reader_create_stream): up to n rounds of get_buffered_data / advance_buffer
+		   (the tail of the file comes out of the reader's fragment cache) */
+		sqfs_istream_t *st = NULL; unsigned long rounds = strtoul(argv[2], 0, 0), i, j; size_t total = 0;
+		unsigned long long h = 1469598103934665603ULL;
+		r = sqfs_data_reader_create_stream(d, ino, "x", &st);
+		if (r) out("stream create %d", r);
+		else {
+			for (i = 0; i < rounds; ++i) {
+				const sqfs_u8 *p = NULL; size_t sz = 0;
+				r = st->get_buffered_data(st, &p, &sz, 1);
+				if (r) break;
+				for (j = 0; j < sz; ++j) { h ^= p[j]; h *= 1099511628211ULL; }
+				total += sz; st->advance_buffer(st, sz);
+			}
+			out("stream %d %zu %016llx", r, total, h); sqfs_drop(st);
+		}
 	} else if (!strcmp(argv[0], "frag")) {
 		size_t sz = 0; sqfs_u8 *b = NULL; r = sqfs_data_reader_get_fragment(d, ino, &sz, &b);
 		put_bytes(hb, sizeof(hb), b, r ? 0 : sz); out("frag %d %s", r, hb); sqfs_free(b);
